@@ -4,6 +4,7 @@ usage: python -m pyvc.worker '<json task>'    ->   one JSON document on stdout (
 """
 import importlib
 import json
+import os
 import random
 import sys
 import time
@@ -145,6 +146,8 @@ def refute_by_shapes(C, case, reg, contracts, lib, deadline, max_models=12):
 def main():
     task = json.loads(sys.argv[1])
     t0 = time.time()
+    real_stdout = sys.stdout
+    sys.stdout = open(os.devnull, "w")       # the library under verification prints; only the result document goes to stdout
     out = {"contract": task["contract"], "case": task["case"], "error": None, "obligations": [], "refutations": [],
            "crosscheck": {"runs": 0, "disagreements": []}, "cover": {}, "relies_on": [], "lib_used": []}
     try:
@@ -179,7 +182,8 @@ def main():
                     out["refutations"].append(rec)
             out["cover"]["pre_native_samples"] = 1
             out["wall_s"] = round(time.time() - t0, 3)
-            print(json.dumps(out))
+            sys.stdout = real_stdout
+            print("\n" + json.dumps(out))
             return
         rng = random.Random(task.get("seed", 0) * 1000003 + hash(task["contract"]) % 1000)
         # ---- 1. the proof
@@ -249,7 +253,8 @@ def main():
     except Exception as e:
         out["error"] = "CHECKER-ERROR internal: %s\n%s" % (e, traceback.format_exc()[-1500:])
     out["wall_s"] = round(time.time() - t0, 3)
-    print(json.dumps(out))
+    sys.stdout = real_stdout
+    print("\n" + json.dumps(out))
 
 
 if __name__ == "__main__":
